@@ -41,6 +41,9 @@ def name_docs(nm):
         # a member whose value is its own name without the first character (what the '~name' / '#name' pointer
         # extensions would produce), and one whose value is its own name
         {nm: nm[1:], other: nm, "w": {nm: nm[1:]}},
+        # equal elements inside one array (distinct objects, and primitives that compare equal across types): a location
+        # found by value instead of by position names the first of them
+        {nm: [[0], [0], 1, True, 1.0, [0], {nm: 1}, {nm: 1}]},
     ]
 
 
@@ -54,6 +57,8 @@ def name_queries(nm):
         Q(C(N(nm)), C(S(0, None, None))), Q(C(I(0)), C(N(nm))), Q(C(I(1))), Q(C(W), C(I(1), I(-2))),
         # slices whose bounds lie outside the array on either side
         Q(D(S(-9, None, None))), Q(D(S(-5, 2, None))), Q(D(S(9, None, -1))), Q(D(S(None, -9, -1))), Q(D(S(1, 9, 2))),
+        # a filter applied directly to whatever the children are - strings and numbers have no children to select
+        Q(C(W), C(F(("test", at)))),
     ]
 
 
@@ -73,6 +78,7 @@ def index_docs():
         {"#": leaf(), "~": leaf(), "": leaf(), "#1": [leaf()], "1": [leaf()], "~~a": leaf()},
         {"#a": "a", "~": "", "#1": "1", "~0": "0", "#": "", "~b": "b"},
         ["s", [leaf(), "t", [leaf()]], "u", {"0": "v", "1": [leaf()]}],
+        [[0], [0], {"1": [0]}, {"1": [0]}, 0, False, 0.0, [0]],
     ]
 
 
